@@ -19,7 +19,6 @@ def run(c):
     c.assume("sticky chain statements: honest user data (each member reports the plan of the previous round); runs that do not terminate are C08's known finding")
     if not c.coq_make(dirs=["C08", "C13"]):
         return
-    c08.safe_assumptions(c)
     c.coq_properties()
     if not c08.hooked_overlay(c, vlib):
         return
